@@ -52,7 +52,7 @@ MANIFEST = dict(
               "the event log",
 )
 FLOORS = {"C12.1": 10, "C12.2": 14, "C12.3": 80, "C12.4": 10, "C12.5": 4,
-          "C12.6": 2, "C12.7": 12, "C12.8": 6}
+          "C12.6": 2, "C12.7": 12, "C12.8": 6, "C12.9": 8}
 
 PE = "evo.core.metrics.PE"
 ST = "evo.core.metrics.StatisticsType"
@@ -319,6 +319,13 @@ def check(ctx):
     n = import_rules(ctx, "c02", ("C02.7",), "C12.8",
                      pred=lambda o: o.key.endswith(":rpe:reduce"))
     ctx.require(n >= 1, "C12.8: rpe() reduction instance not found")
+    # the companion arrays of RPE are taken at delta_ids: "exactly one entry
+    # per error value, referring to the pose that value belongs to" needs
+    # delta_ids to stay in step with the error values wherever values are
+    # dropped (zero reference distances of the ratio relation) — instances
+    # of C02.2
+    n = import_rules(ctx, "c02", ("C02.2",), "C12.9")
+    ctx.require(n >= 8, "C12.9: delta_ids co-indexing instances not found")
 
 
 def _units(ctx):
